@@ -304,6 +304,12 @@ func catalogue(target string) []program {
 			{{o("store", 1, 5), o("load", 9), o("delete", 1), o("store", 1, 8)}, {o("loadorstore", 1, 6)}, {o("delete", 1)}},
 			{{o("store", 1, 5), o("load", 9), o("loadanddelete", 1)}, {o("store", 1, 6)}, {o("loadanddelete", 1)}},
 			{{o("store", 1, 5), o("store", 2, 6), o("load", 9), o("load", 9), o("range")}, {o("delete", 1)}, {o("store", 1, 7)}},
+			// a fast-path Store / LoadOrStore on a nil entry of read.m races the expunge of that entry by a first use of another key, then a promotion
+			{{o("store", 1, 5), o("load", 9), o("delete", 1), o("store", 1, 8), o("load", 1)}, {o("store", 2, 6), o("load", 9), o("load", 9)}},
+			{{o("store", 1, 5), o("load", 9), o("delete", 1), o("loadorstore", 1, 8), o("load", 1)}, {o("store", 2, 6), o("load", 9), o("load", 9)}},
+			// an expunged entry is un-expunged under the lock by one LoadOrStore while another one takes the fast path on it
+			{{o("store", 1, 5), o("load", 9), o("delete", 1), o("store", 2, 6), o("loadorstore", 1, 8)}, {o("loadorstore", 1, 7)}},
+			{{o("store", 1, 5), o("load", 9), o("delete", 1), o("store", 2, 6), o("store", 1, 8), o("load", 1)}, {o("loadorstore", 1, 7)}, {o("delete", 1)}},
 		}
 	case "set":
 		return []program{
@@ -315,6 +321,10 @@ func catalogue(target string) []program {
 			{{o("add", 1), o("has", 9), o("remove", 1), o("add", 2)}, {o("add", 1), o("remove", 1)}},
 			{{o("add", 1), o("has", 9), o("remove", 1), o("add", 1)}, {o("add", 1)}, {o("remove", 1)}},
 			{{o("add", 1), o("has", 9), o("add", 1)}, {o("remove", 1)}, {o("add", 1)}},
+			// the value's entry is expunged (add, promote, remove, first use of another value), then two Adds of it overlap
+			{{o("add", 1), o("has", 9), o("remove", 1), o("add", 2), o("add", 1)}, {o("add", 1)}},
+			{{o("add", 1), o("has", 9), o("remove", 1), o("add", 1), o("has", 1)}, {o("add", 2), o("has", 9), o("has", 9)}},
+			{{o("add", 1), o("has", 9), o("remove", 1), o("add", 2), o("add", 1), o("has", 1)}, {o("add", 1)}, {o("remove", 1)}},
 		}
 	case "km":
 		return []program{
